@@ -2,6 +2,7 @@ import PharmpyProofs.C05.MatrixLemmas
 import PharmpyProofs.C05.OrderLemmas
 import PharmpyProofs.C05.DictLemmas
 import PharmpyProofs.C05.RelabelLemmas
+import PharmpyProofs.C05.SubsLemmas
 /-
   C05 helper lemmas that sit directly under the property theorems.
 -/
@@ -118,6 +119,17 @@ theorem nodes_foldl_addNodes (l : List (Node ε)) : ∀ (g : CGraph ε),
       intro m hm; rw [hnodes]; simp only [List.mem_append, List.mem_singleton, not_or]
       exact ⟨hdis m (List.mem_cons_of_mem _ hm), fun h => hnd.1 (h ▸ hm)⟩)
     refine ⟨by rw [i1, hnodes]; simp, fun x y => by rw [i2, getFlow_addNode]⟩
+
+
+theorem nodes_mapRates {α ρ : Type} [DecidableEq α] (g : Graph α ρ) (f : ρ → ρ) : (g.mapRates f).nodes = g.nodes := by
+  unfold mapRates nodes; simp [List.map_map, Function.comp_def]
+
+theorem nodes_filter_comps (g : CGraph ε) :
+    g.nodes.filter (fun n => (comps g).contains n) = comps g := by
+  unfold comps
+  apply List.filter_congr
+  intro n hn
+  simp [List.mem_filter, hn]
 
 
 end
